@@ -80,6 +80,11 @@ def run(ctx):
     for c in nat:
         fq += fs.collected_rows_failures(c)
     nq += len(nat)
+    # a depth / position column that is itself quality-controlled (the column is data and axis at once)
+    axs = fs.gen_axis_stream_cases(tier, rng)
+    for c in axs:
+        fq += fs.collected_rows_failures(c)
+    nq += len(axs)
     r1["failures"] += extra + fq
     r1["evaluations"] += nq
     return adapters.merge(
